@@ -11,7 +11,7 @@ CORR_MODULES = ["Sched.ChannelsCorr"]
 PREFIX = "C34"
 CASE_TYPE = "C34_case"
 HARNESS = "c34"
-KNOWN = {1: "C34-mpsc-never-closes"}
+KNOWN = {}
 RULE = ("one case = one history (<= 40 operations: send/notify, clone, drop sender, poll with one of 8 counting "
         "wakers, drop receiver) driven through ONE real channel on one thread; every short history over a small "
         "alphabet is enumerated, longer ones are drawn from one PRNG with ownership-valid handles (plus a few ops "
@@ -24,9 +24,8 @@ TRUSTED = ["theories/Sched/ChannelsModel.v is a hand transcription of the critic
            "Rust ownership (a moved/dropped handle is never used again) is modelled by a ghost handle table"]
 ASSUMPTIONS = ["every step of a history is one critical_section::with body executed atomically; under that "
                "assumption a list of steps IS an interleaving of the threads owning the handles",
-               "mpsc disconnection is not claimed: MpscInner::is_closed is never set (known finding "
-               "C34-mpsc-never-closes)",
-               "notification: no overflow of sender_count for histories shorter than 2^64-1 steps"]
+               "mpsc and notification: no overflow of sender_count is claimed for histories shorter than "
+               "2^64-1 steps"]
 
 KINDS = {"o": "KOneshot", "m": "KMpsc", "n": "KNotif"}
 
@@ -226,8 +225,9 @@ def gen(r, tier):
 def corpus():
     # minimised regression cases
     return [
-        ("m", [("d", 0), ("p", 0)]),                                    # known finding: never closes
-        ("m", [("p", 0), ("d", 0), ("p", 0)]),                          # known finding: no wake on last drop
+        ("m", [("d", 0), ("p", 0)]),             # C34-mpsc-never-closes (fixed 112abf8): was `u p`, now `u c`
+        ("m", [("p", 0), ("d", 0), ("p", 1)]),   # same finding: the last drop did not wake: was `p u p`
+        ("m", [("c", 0), ("s", 1, 7), ("d", 0), ("p", 0), ("d", 1), ("p", 0), ("p", 0)]),
         ("m", [("p", 0), ("s", 0, 1), ("s", 0, 2), ("p", 1), ("p", 1), ("p", 1), ("s", 0, 3)]),
         ("o", [("p", 0), ("s", 0, 5), ("p", 1), ("p", 1)]),
         ("o", [("p", 0), ("p", 1), ("d", 0), ("p", 2)]),
@@ -348,18 +348,16 @@ MANIFEST = {
              "steps over any number of sender handles, wakers and the receiver (= every thread interleaving, as each "
              "body is atomic) it is proved that: received values followed by the values still stored equal the "
              "accepted sends in order (exactly-once, FIFO); a poll returns the oldest outstanding value; a receiver "
-             "whose poll returned Pending has been woken by the time a poll would be Ready (no lost wake-up); "
-             "oneshot and notification report disconnection exactly when every sender handle is dropped and nothing "
-             "is outstanding; notification's sender_count equals the number of live handles and never under/overflows. "
-             "For mpsc the disconnection clause is REFUTED (is_closed is never set: a receiver waits forever after the "
-             "last sender is dropped) and recorded as a known finding; everything else is proved for mpsc too. The "
-             "model is tied to the code by driving the real channel types with counting wakers through thousands of "
-             "histories (all short ones exhaustively) and comparing every return value and every wake inside Coq; "
-             "the property monitor is applied to the implementation's own outputs; a multi-thread stress run "
-             "corroborates."),
+             "whose poll returned Pending has been woken by the time a poll would be Ready (no lost wake-up); all "
+             "three channels report disconnection exactly when every sender handle is dropped and nothing is "
+             "outstanding (queued values first); sender_count of mpsc and notification equals the number of live "
+             "handles and never under/overflows. The model is tied to the code by driving the real channel types "
+             "with counting wakers through thousands of histories (all short ones exhaustively) and comparing every "
+             "return value and every wake inside Coq; the property monitor is applied to the implementation's own "
+             "outputs; a multi-thread stress run corroborates. (The mpsc disconnection clause was false before "
+             "/repo commit 112abf8: finding C34-mpsc-never-closes, fixed.)"),
     "note": ("Trusted: Coq kernel + vm_compute; hand model ChannelsModel.v (checked against the code on every run); "
              "atomicity and memory ordering of critical_section::with (std implementation) are assumed, not proved; "
-             "ownership discipline modelled as a ghost handle table; harness and comparator. Axioms: none. "
-             "Not claimed: mpsc disconnection (known finding C34-mpsc-never-closes)."),
+             "ownership discipline modelled as a ghost handle table; harness and comparator. Axioms: none."),
     "technique": "Coq proof (invariants over all step lists) + differential correspondence with trace monitor evaluated in Coq",
 }
